@@ -5,8 +5,8 @@ CONSTANTS
   RemoveByIdentity = FALSE
   QueueKept = TRUE
   ManifestWins = TRUE
-  ForgetUnlinked = FALSE
-  NoOverwriteOnRename = TRUE
+  ForgetUnlinked = TRUE
+  NoOverwriteOnRename = FALSE
   AdoptListed = TRUE
   Export = FALSE
 INVARIANT C03_ExactCover_ModuloF14
